@@ -1,12 +1,13 @@
 ------------------------------ MODULE TcpAuthMC ------------------------------
 (* Structured constants of the exhaustive / generation models of TcpAuth. *)
 EXTENDS TcpAuth
+\* name 99 = the key configured WITHOUT an id (its ID is the empty string): just another key
 K(n, c, s) == [name |-> n, cls |-> c, sec |-> s]
 \* chacha20 and aes-256 under ONE secret (32-byte salts, one marking key), aes-192 (24) and aes-128 (16, unmarked) under
 \* another, and the chacha key once more under a second id
-KeysQ == << K(1, 1, 1), K(2, 2, 1), K(3, 3, 2), K(4, 4, 2), K(5, 1, 1) >>
+KeysQ == << K(1, 1, 1), K(2, 2, 1), K(99, 3, 2), K(4, 4, 2), K(5, 1, 1) >>
 \* all four classes under one secret
-KeysX == << K(1, 4, 1), K(2, 3, 1), K(3, 2, 1), K(4, 1, 1) >>
+KeysX == << K(1, 4, 1), K(99, 3, 1), K(3, 2, 1), K(4, 1, 1) >>
 \* a small list for the 4-connection model: one marking class of each salt size and the unmarked class
 KeysS == << K(1, 1, 1), K(2, 3, 1), K(3, 4, 1) >>
 ===============================================================================
